@@ -34,7 +34,7 @@ def _space(tier):
     full = [kp for kp in A.sigma_param(docs=A.DOCS[:2] + A.DOCS[4:], types=TYPES) if kp[0][1] != "code"]
     small = [kp for kp in A.sigma_int()]
     yield from A.ir_space(full, small, 3 if tier == "quick" else 3, returns_1=A.RETURNS[:2] + A.RETURNS[3:], returns_n=A.RETURNS[:2])
-    yield from A.ir_space([], small, 3, returns_n=A.RETURNS[:1], alt_names=[A.KWARGS_NAMES])
+    yield from A.ir_space([], small, 3, returns_n=A.RETURNS[:1], alt_names=[A.KWARGS_NAMES], wide=False)
     if tier == "thorough":
         plain = [kp for kp in A.sigma_param(docs=A.DOCS_BASIC, types=TYPES) if kp[0][1] != "code"]
         for a, b in itertools.product(plain, repeat=2):
